@@ -69,6 +69,8 @@ def module_source(i, edges, params, subdir, extra=None, noexp=frozenset()):
             L.append(f'print "{me}:{base} len " + {base}.lst{j}.len()')
             L.append(f'print "{me}:{base} cnt " + {base}.cnt{j}')
             L.append(f'print "{me}:{base} K " + {base}.K{j}')
+            L.append(f"ob{i}_{j} = {base}.Cls{j}({i})")
+            L.append(f'print "{me}:{base} obj " + ob{i}_{j}.getv()')
         elif form == "type-only":
             L.append(f"import type T{j} from {path}")
             L.append(f"tv{i}_{j}: T{j} = {j + 100}")
@@ -76,7 +78,7 @@ def module_source(i, edges, params, subdir, extra=None, noexp=frozenset()):
         else:
             var = f", cnt{j}" if form == "names+var" else ""
             ty = f"type T{j}, " if form == "type+names" else ""
-            L.append(f"import {ty}bump{j}, peek{j}, lst{j}{var}, K{j} from {path}")
+            L.append(f"import {ty}bump{j}, peek{j}, lst{j}{var}, K{j}, Cls{j} from {path}")
             L.append(f'print "{me}:{base} peek " + peek{j}()')
             L.append(f"bump{j}()")
             L.append(f"lst{j}.push({i})")
@@ -84,6 +86,8 @@ def module_source(i, edges, params, subdir, extra=None, noexp=frozenset()):
             if form == "names+var":
                 L.append(f'print "{me}:{base} copied " + cnt{j}')
             L.append(f'print "{me}:{base} K " + K{j}')
+            L.append(f"ob{i}_{j} = Cls{j}({i})")
+            L.append(f'print "{me}:{base} obj " + ob{i}_{j}.getv()')
         return L
     mine = [(j, params[(a, j)]) for (a, j) in edges if a == i]
     for j, (form, sp, place) in mine:
@@ -92,7 +96,9 @@ def module_source(i, edges, params, subdir, extra=None, noexp=frozenset()):
     if i in noexp:
         out += [f"side{i} = {i}", f'print "effect {me} " + side{i}']
     else:
-        out += [f"export type T{i} int", f"export cnt{i}: int = 0", f"export lst{i}: [int...] = []", f"export const K{i}: int = {i * 11}", f"hidden{i} = {i}",
+        out += [f"export class Cls{i} {{", "\tv: int", "\tconstructor(self, v: int) {", "\t\tself.v = v", "\t}", "\tfn getv(self) -> int {",
+                f"\t\treturn self.v * 10 + {i}", "\t}", "}",
+                f"export type T{i} int", f"export cnt{i}: int = 0", f"export lst{i}: [int...] = []", f"export const K{i}: int = {i * 11}", f"hidden{i} = {i}",
                 f"export bump{i}: fn() -> int = fn() -> int {{", f"\tmodify cnt{i} = cnt{i} + 1", f"\treturn cnt{i}", "}",
                 f"export peek{i}: fn() -> int = fn() -> int {{", f"\treturn cnt{i} + hidden{i} - {i}", "}"]
     for j, (form, sp, place) in mine:
@@ -131,6 +137,7 @@ def expected(n, edges, params, noexp=frozenset()):
         elif form == "names+var":
             out.append(f"{me}:{base} copied {copied}")
         out.append(f"{me}:{base} K {j * 11}")
+        out.append(f"{me}:{base} obj {i * 10 + j}")
 
     def run(i):
         loaded[i] = {"cnt": 0, "lst": []}
@@ -158,7 +165,7 @@ class C11(Check):
             "(import form in {import m, import a, b from m, import type T from m, import type T, a, b from m}, path spelling in {m, m.ms, ./m}, placement of the import before / between / "
             "after the importer's side-effecting statements) - all combinations for n <= 3, at most one (quick) / two (thorough) deviating "
             "edges for n = 4 and one for n = 5; variants with the imported leaf module in a sub-directory and with several modules in a sub-directory that import each other (paths relative to the importing file); variants in which leaf modules export "
-            "nothing (side effects only); negative cases (non-exported "
+            "nothing (side effects only); every exporting module also exports a class that its importers instantiate and call; negative cases (non-exported "
             "name through the module and through `import x from`, assignment to an exported member).  Each project is run in memory and "
             "from files.  State of the reference loader = (set of initialised modules, per-module counter and list); every project is one "
             "model trace replayed on the implementation.")
